@@ -477,6 +477,20 @@ func (it *c11Interp) assign(fr *c11Frame, st *c11St, lhs ast.Expr, v *c11V) {
 				st.heap[b.id].f[f.Name()] = v
 				return
 			}
+			// a local variable of struct type holding an opaque value (u := x.Update(); u.Index = i): the
+			// variable is a copy, so the write changes the copy, not memory
+			if id, ok := ast.Unparen(x.X).(*ast.Ident); ok && n == 0 && base.k != "addr" && base.k != "deref" {
+				if lv, ok := info.Uses[id].(*types.Var); ok && !lv.IsField() && !(lv.Pkg() != nil && lv.Parent() == lv.Pkg().Scope()) {
+					if _, isStruct := lv.Type().Underlying().(*types.Struct); isStruct {
+						if cur, ok := st.env[lv]; ok && cur == base {
+							nid := it.fresh()
+							st.heap[nid] = &c11Obj{typ: lv.Type(), f: map[string]*c11V{f.Name(): v}, base: base}
+							st.env[lv] = &c11V{k: "struct", id: nid, typ: lv.Type()}
+							return
+						}
+					}
+				}
+			}
 			it.store(fr, st, c11Field(b, f), v, lhs)
 		}
 	case *ast.IndexExpr:
@@ -710,20 +724,70 @@ func (it *c11Interp) havoc(fr *c11Frame, st *c11St, loop ast.Node) {
 			st.env[v] = c11LoopSym(loop, fr.path, v)
 		}
 	}
-	// struct values built before the loop whose fields are written in it: their content is unknown from here on
+	// function values called in the loop: the variables their literals assign (in the frame that created
+	// them, possibly a suspended caller) change from iteration to iteration as well
+	ast.Inspect(loop, func(n ast.Node) bool {
+		call, ok := n.(*ast.CallExpr)
+		if !ok {
+			return true
+		}
+		id, ok := ast.Unparen(call.Fun).(*ast.Ident)
+		if !ok {
+			return true
+		}
+		fv, ok := fr.info.Uses[id].(*types.Var)
+		if !ok {
+			return true
+		}
+		f, ok := st.env[fv]
+		if !ok || f.k != "funclit" {
+			return true
+		}
+		lit := f.node.(*ast.FuncLit)
+		cf := it.litInfo[lit]
+		if cf == nil {
+			return true
+		}
+		env := st.env
+		if f.name != fr.envP {
+			env = nil
+			for i := len(st.stack) - 1; i >= 0; i-- {
+				if st.stack[i].path == f.name {
+					env = st.stack[i].env
+					break
+				}
+			}
+		}
+		if env == nil {
+			return true
+		}
+		for v := range c11AssignedIn(cf.info, lit.Body) {
+			if cur, ok := env[v]; ok {
+				if _, done := pre[v]; !done {
+					pre[v] = cur
+					env[v] = c11LoopSym(loop, fr.path, v)
+				}
+			}
+		}
+		return true
+	})
+	// struct values built before the loop whose fields are written in it: those fields are unknown from here on
 	ast.Inspect(loop, func(n ast.Node) bool {
 		as, ok := n.(*ast.AssignStmt)
 		if !ok {
 			return true
 		}
 		for _, l := range as.Lhs {
-			if _, isSel := ast.Unparen(l).(*ast.SelectorExpr); !isSel {
+			sel, isSel := ast.Unparen(l).(*ast.SelectorExpr)
+			if !isSel {
 				continue
 			}
-			e := l
+			first := sel // the selector applied directly to the root variable
+			e := sel.X
 			for {
 				switch x := ast.Unparen(e).(type) {
 				case *ast.SelectorExpr:
+					first = x
 					e = x.X
 					continue
 				case *ast.StarExpr:
@@ -732,14 +796,28 @@ func (it *c11Interp) havoc(fr *c11Frame, st *c11St, loop ast.Node) {
 				}
 				break
 			}
-			if id, ok := ast.Unparen(e).(*ast.Ident); ok {
-				if v, ok := fr.info.Uses[id].(*types.Var); ok {
-					if cur, ok := st.env[v]; ok {
-						if b := c11StripPtr(cur); b.k == "struct" && st.heap[b.id] != nil {
-							st.heap[b.id] = &c11Obj{typ: st.heap[b.id].typ, f: map[string]*c11V{}, hv: "loop@" + c11LoopKey(loop, fr.path) + ":" + v.Name()}
-						}
-					}
-				}
+			id, ok := ast.Unparen(e).(*ast.Ident)
+			if !ok {
+				continue
+			}
+			v, ok := fr.info.Uses[id].(*types.Var)
+			if !ok {
+				continue
+			}
+			cur, ok := st.env[v]
+			if !ok {
+				continue
+			}
+			sym := "loop@" + c11LoopKey(loop, fr.path) + ":" + v.Name()
+			if b := c11StripPtr(cur); b.k == "struct" && st.heap[b.id] != nil {
+				o := st.heap[b.id].clone()
+				o.f[first.Sel.Name] = c11Sym(sym+"."+first.Sel.Name, nil)
+				st.heap[b.id] = o
+			} else if _, isStruct := v.Type().Underlying().(*types.Struct); isStruct && pre[v] == nil {
+				// an opaque struct value that the loop turns into a modified local copy
+				nid := it.fresh()
+				st.heap[nid] = &c11Obj{typ: v.Type(), f: map[string]*c11V{first.Sel.Name: c11Sym(sym+"."+first.Sel.Name, nil)}, base: cur}
+				st.env[v] = &c11V{k: "struct", id: nid, typ: v.Type()}
 			}
 		}
 		return true
@@ -822,6 +900,7 @@ func (it *c11Interp) execRange(fr *c11Frame, st *c11St, x *ast.RangeStmt) []c11O
 			it.onLoop(fr, c, x, "init")
 		}
 		it.havoc(fr, c, x)
+		c.ev[len(c.ev)-1].x = r.v
 		exit := c.clone()
 		key := c11RangeKey(x, fr.path)
 		var val *c11V
@@ -856,13 +935,14 @@ func c11RangeKey(x *ast.RangeStmt, path string) *c11V {
 
 // callInline executes fi with the given receiver and arguments and returns its outcomes in the caller's environment.
 func (it *c11Interp) callInline(fr *c11Frame, st *c11St, fi *FuncInfo, recv *c11V, args []*c11V, call *ast.CallExpr) []c11Out {
-	saved := st.env
+	st.stack = append(st.stack, c11Saved{path: fr.envP, env: st.env})
 	nf := &c11Frame{pk: fi.Pkg, info: fi.Pkg.TypesInfo, fi: fi, depth: fr.depth + 1}
 	pos := 0
 	if call != nil {
 		pos = int(call.Pos())
 	}
 	nf.path = fr.path + "/" + fi.Obj.FullName() + "@" + strconv.Itoa(pos)
+	nf.envP = nf.path
 	env := map[types.Object]*c11V{}
 	info := nf.info
 	if fi.Decl.Recv != nil && len(fi.Decl.Recv.List) == 1 && len(fi.Decl.Recv.List[0].Names) == 1 && recv != nil {
@@ -917,11 +997,10 @@ func (it *c11Interp) callInline(fr *c11Frame, st *c11St, fi *FuncInfo, recv *c11
 		default:
 			o.st.note("stray control transfer")
 		}
-		ne := make(map[types.Object]*c11V, len(saved))
-		for k, v := range saved {
-			ne[k] = v
+		if n := len(o.st.stack); n > 0 { // back to the caller's environment (every state owns its copy of the stack)
+			o.st.env = o.st.stack[n-1].env
+			o.st.stack = o.st.stack[:n-1]
 		}
-		o.st.env = ne
 		out = append(out, o)
 	}
 	for i := range it.done {
